@@ -13,6 +13,7 @@
 import MainlineModel.Props.C01Served
 import MainlineModel.Props.C01Yield
 import MainlineModel.Props.C09
+import MainlineModel.Props.C09Own
 namespace Mainline.Props.C01Hop
 open Mainline Mainline.Actor
 
@@ -53,5 +54,92 @@ theorem round_trip_immutable (a b : Actor) (holder reader : Addr) (x : Message) 
   have hro : y.2.readOnly = false := by rw [hy4, hsA']; rfl
   exact C01Yield.node_yields_served_immutable b envB y.2 holder target q senders c i tok ns v msgB hacc hro hy3
     (by rw [hy2]; exact hout.noPut) (by rw [hy2]; exact hq) htq hhash hs hc
+
+
+theorem compareAddr_self (x : Addr) : compareAddr x x = true := by
+  unfold compareAddr
+  simp
+
+/-- **Bookkeeping is an invariant.**  In a reader state that satisfies the attribution invariant
+    (every reachable state does, `C09Own.reachable_attr`), a live entry `r` of the request table whose
+    id the lookup registered under `target` lists is `Outstanding`, and the log holds the request
+    datagram `x` that went to `r.to`: exactly the lookup's request. -/
+theorem outstanding_of_state (b : Actor) (now0 : Nat) (hord : SockOrd b.sock now0) (hat : Attr b)
+    (htg : C09Own.Targeted b.core.iter) (hk : C06Time.IterKeys b.core.iter)
+    (target : Id) (q : IterQuery) (hq : alGet b.core.iter target = some q)
+    (r : InflightReq) (hr : r ∈ b.sock.requests) (hin : r.tid ∈ q.inflight) (now : Nat) (hlive : b.sock.live r now = true)
+    (senders : List Sender) (c : Nat) (hs : alGet b.getSenders target = some senders) (hc : Sender.immutable c ∈ senders) :
+    ∃ x : Message, (r.to, x) ∈ b.out ∧ x.mtype = .request ⟨q.requesterId, q.kind.request target⟩ ∧
+      Outstanding b now x.tid r.to target c := by
+  have hmem : (target, q) ∈ b.core.iter := mem_of_alGet _ _ _ hq
+  obtain ⟨x, hx, hxt, hxm⟩ := C09Own.sock_entry hat (target, q) hmem r hr hin
+  have htq : q.target = target := htg (target, q) hmem
+  obtain ⟨o1, o2⟩ := C09Own.owner_found hat htg hk target q hq r.tid hin
+  refine ⟨x, hx, by rw [hxm]; simp only [IterQuery.request, htq], ?_⟩
+  exact ⟨hord.inv, ⟨r, hr, ⟨hxt.symm, compareAddr_self r.to⟩, hlive⟩, by rw [hxt]; exact o1,
+    ⟨q, by rw [hxt]; exact o2, htq⟩, ⟨senders, hs, hc⟩⟩
+
+/-- **One hop, from the states alone.**  Reader `b`: any state satisfying the invariants of reachable
+    states, with a `get` lookup of `target` registered, a caller parked on it, and a request of that
+    lookup still live in the request table, addressed to `r.to`.  Holder `a`: any state in server mode
+    holding `v` under `target`.  Then the log of the reader holds the request datagram `x` for
+    `r.to`; when `x` is delivered to the holder (from `reader`, the reader's address), the holder's
+    iteration sends an answer `y` to `reader`; and when `y` is delivered to the reader from `r.to`
+    while the request is live, the reader's iteration hands `v` to the caller. -/
+theorem lookup_request_brings_value (a b : Actor) (reader : Addr) (now0 : Nat)
+    (hord : SockOrd b.sock now0) (hat : Attr b) (htg : C09Own.Targeted b.core.iter) (hk : C06Time.IterKeys b.core.iter)
+    (target : Id) (q : IterQuery) (salt : Option Bytes) (hq : alGet b.core.iter target = some q)
+    (hkind : q.kind = .getValue none salt)
+    (r : InflightReq) (hr : r ∈ b.sock.requests) (hin : r.tid ∈ q.inflight)
+    (senders : List Sender) (c : Nat) (hs : alGet b.getSenders target = some senders) (hc : Sender.immutable c ∈ senders)
+    (v : Bytes) (hhash : hashImmutable v = target.bytes)
+    (hsA : a.core.serverMode = true) (hsA' : a.sockServerMode = true)
+    (hheld : a.core.server.immutable.find? target = some v)
+    (hallow : a.core.allow ⟨q.requesterId, .getValue target none salt⟩ reader = true)
+    (hreader : reader.port ≠ 0) (hholder : r.to.port ≠ 0)
+    (envA envB : Env) (msgA msgB : Option ApiMsg) (hlive : b.sock.live r envB.now = true) :
+    ∃ x : Message, (r.to, x) ∈ b.out ∧ x.mtype = .request ⟨q.requesterId, .getValue target none salt⟩ ∧
+      ∃ l, (a.step envA (some (x, reader)) msgA).out = a.out ++ l ∧ ∃ y ∈ l, y.1 = reader ∧
+        Event.value c (.immutable v) ∈ (b.step envB (some (y.2, r.to)) msgB).events := by
+  obtain ⟨x, hx, hxm, hout⟩ := outstanding_of_state b now0 hord hat htg hk target q hq r hr hin envB.now hlive senders c hs hc
+  have hxm' : x.mtype = .request ⟨q.requesterId, .getValue target none salt⟩ := by
+    rw [hxm, hkind]; rfl
+  exact ⟨x, hx, hxm', round_trip_immutable a b r.to reader x q.requesterId target salt v c hsA hsA' hheld hallow hreader
+    hholder hxm' hhash envA envB msgA msgB hout⟩
+
+
+/-- **One hop, every reachable reader.**  The reader is any node after any run from its creation (any
+    datagrams, any API calls; clock monotone, id counter not wrapped — `RunOk`); the holder any state in
+    server mode that holds `v`.  If at the end of the run the reader's lookup of `hash v` still lists a
+    live request, the request datagram is in the reader's log, and delivering it to the holder and the
+    holder's answer back to the reader hands `v` to every caller parked for immutable values under
+    that target. -/
+theorem reachable_request_brings_value (T : Nat) (cfg : NodeConfig) (seed : UInt64) (t0 : Nat)
+    (hb0 : cfg.firstTid % two32 + (Actor.create cfg seed t0).out.length < two32)
+    (ins : List Actor.StepIn) (hok : C06Time.RunOk T (Actor.create cfg seed t0) t0 ins)
+    (a : Actor) (reader : Addr)
+    (target : Id) (q : IterQuery) (salt : Option Bytes)
+    (hq : alGet (Actor.runSteps (Actor.create cfg seed t0) ins).core.iter target = some q)
+    (hkind : q.kind = .getValue none salt)
+    (r : InflightReq) (hr : r ∈ (Actor.runSteps (Actor.create cfg seed t0) ins).sock.requests) (hin : r.tid ∈ q.inflight)
+    (senders : List Sender) (c : Nat)
+    (hs : alGet (Actor.runSteps (Actor.create cfg seed t0) ins).getSenders target = some senders)
+    (hc : Sender.immutable c ∈ senders)
+    (v : Bytes) (hhash : hashImmutable v = target.bytes)
+    (hsA : a.core.serverMode = true) (hsA' : a.sockServerMode = true)
+    (hheld : a.core.server.immutable.find? target = some v)
+    (hallow : a.core.allow ⟨q.requesterId, .getValue target none salt⟩ reader = true)
+    (hreader : reader.port ≠ 0) (hholder : r.to.port ≠ 0)
+    (envA envB : Env) (msgA msgB : Option ApiMsg)
+    (hlive : (Actor.runSteps (Actor.create cfg seed t0) ins).sock.live r envB.now = true) :
+    ∃ x : Message, (r.to, x) ∈ (Actor.runSteps (Actor.create cfg seed t0) ins).out ∧
+      x.mtype = .request ⟨q.requesterId, .getValue target none salt⟩ ∧
+      ∃ l, (a.step envA (some (x, reader)) msgA).out = a.out ++ l ∧ ∃ y ∈ l, y.1 = reader ∧
+        Event.value c (.immutable v) ∈
+          ((Actor.runSteps (Actor.create cfg seed t0) ins).step envB (some (y.2, r.to)) msgB).events := by
+  have hready := C06Time.reachable_ready T cfg seed t0 hb0 ins hok
+  exact lookup_request_brings_value a _ reader _ hready.sock.ord (C09Own.reachable_attr T cfg seed t0 hb0 ins hok)
+    (C09Own.reachable_targeted cfg seed t0 ins) hready.keys target q salt hq hkind r hr hin senders c hs hc v hhash
+    hsA hsA' hheld hallow hreader hholder envA envB msgA msgB hlive
 
 end Mainline.Props.C01Hop
